@@ -18,7 +18,7 @@ PROPERTY = "C15"
 LEVEL = "exploration"
 RULE = (
     "create: method{linear,comoving,logspace} x closed x (zmin,zmax,num_bins){4} x unit{8} x scales{single,"
-    "3 overlapping, 2 nested} x rweight/resolution{4, incl. rweight=0.0} x cosmology{default name, instance, other name, CustomCosmology with D_A != D_C/(1+z), closed LambdaCDM instance; the last two are created after a decoy configuration with a sibling instance of the same class and other parameters}; "
+    "3 overlapping, 2 nested} x rweight/resolution{5, incl. rweight=0.0 and a resolution without rweight} x cosmology{default name, instance, other name, CustomCosmology with D_A != D_C/(1+z), closed LambdaCDM instance; the last two are created after a decoy configuration with a sibling instance of the same class and other parameters}; "
     "custom edges; invalid alphabet (non-increasing edges, NaN edges, zmin/zmax NaN or inf, rmin>=rmax, unknown method/unit/cosmology, "
     "missing zmin/zmax/edges, length mismatch); modify: every single parameter value (incl. the falsy values zmin=0, zmax=0, num_bins=0, rweight=0) and every pair of "
     "parameter values on 9 base configurations vs create(**merged); after a single modification a second, different one of the same original (must start from the original again). Non-trivial: non-default cosmology or "
